@@ -80,6 +80,19 @@ def exact_case(task):
                                        {"forest": f.describe(), "order": order})
                         break
             lp = float(RootPermutationDistribution.log_pdf(tree))
+            # the same tree under other labellings / construction histories (pre-order relabelling as the run loop does
+            # after every sweep, shuffled siblings, dictionary round trip)
+            from vlib import tracegen
+            for variant in (1, 2, 3):
+                tv = tracegen.variant_tree(f, data, rng0, variant)
+                lpv = float(RootPermutationDistribution.log_pdf(tv))
+                part.count("labelling_variant_evaluations")
+                if not abs(lpv - lp) <= 1e-9 * (1 + abs(lp)):
+                    part.violation("log_pdf of the same tree depends on how its clones are labelled / were built",
+                                   {"forest": f.describe(), "variant": ["", "shuffled siblings", "pre-order relabelled",
+                                                                        "dictionary round trip"][variant],
+                                    "log_pdf": lpv, "log_pdf_fresh_build": lp, "expected": -log_count_ref})
+                    break
             dev = abs(-lp - log_count_ref)
             part.maxi("max_log_pdf_dev", dev)
             if not dev <= 1e-9 * (1 + abs(log_count_ref)):
